@@ -137,6 +137,12 @@ func sustained(idx int64, r *rand.Rand) {
 		spec = spec.WithDefaultMax([]string{"0", "-1"}[r.IntN(2)]) // "give me the default" maximum: the configured minimum still holds
 		rt.Count("cases_asking_for_the_default_maximum", 1)
 	}
+	if kind == "vegas" && r.IntN(5) == 0 {
+		// a caller-supplied baseline measurement (constructor argument) that keeps the latest value it was given: a
+		// sample not below the baseline is still applied, whatever the measurement's Add would report
+		spec.NoLoad = "single"
+		rt.Count("vegas_cases_with_caller_supplied_baseline_measurement", 1)
+	}
 	l := spec.New(nil, "c06")
 	hist := prefix(r, l, r.IntN(120))
 	e0 := l.EstimatedLimit()
@@ -177,6 +183,13 @@ func sustained(idx int64, r *rand.Rand) {
 		if after > before {
 			rt.Violation("C06/"+kind+"/drop-raised-estimate", idx, rt.J{"spec": spec, "before": before, "after": after,
 				"drop_sample": s, "phase": "sustained", "history_tail": tail(hist, 20)})
+			return
+		}
+		if kind == "vegas" && total-eff > total/2+4 {
+			// the RTTs rise strictly, so after the first sample none is below the baseline; what is left to be "not
+			// effective" are probes, and those are at least two samples apart (jitter >= 0.5, multiplier >= 5, limit >= 1)
+			rt.Violation("C06/vegas/drops-not-below-the-baseline-left-unapplied", idx, rt.J{"spec": spec, "drop_samples": total,
+				"applied": eff, "estimate": after, "history_tail": tail(hist, 12)})
 			return
 		}
 		if after < floor {
@@ -249,7 +262,6 @@ func concurrentDrops(idx int64, r *rand.Rand) {
 	}
 	rt.Distinct(fmt.Sprintf("conc|%d|%g|%d", l0, ratio, n))
 }
-
 
 // concurrentDropsAdaptive: several goroutines deliver only drop samples to one Vegas / Gradient limit at
 // the same time.  The user-supplied queue allowance function (Gradient) is a collaborator the harness may
